@@ -171,6 +171,13 @@ class eqnarray(EqnarrayStar):
     class EndRow(Array.EndRow):
         """ End of a row """
         counter: Optional[str] = 'equation'
+
+        def postArgument(self, arg, value, tex):
+            # The star of \\* only forbids a page break: the row that follows is numbered like any other
+            if arg.name == '*modifier*':
+                value = None
+            Array.EndRow.postArgument(self, arg, value, tex)
+
         def invoke(self, tex):
             res = Array.EndRow.invoke(self, tex)
             res[1].ref = self.ref
